@@ -567,6 +567,18 @@ def build_item(cur, log):
             ed.insert(toks[lo_].end, lets)
             ed.insert(toks[lc_].start, f" {kv} += 1; ")
             log.append(("R2", where, text[toks[lk].start:toks[lo_].end]))
+    if "R4" in rules:
+        for n_, (lk, lo_, lc_) in enumerate(loops):
+            if toks[lk].text != "for": continue
+            hdr = text[toks[lk].start:toks[lo_].start]
+            m = re.match(r"for\s+(\w+)\s+in\s+\(\s*(.+?)\s*\.\.\s*(.+?)\s*\)\s*\.rev\(\)\s*$", hdr, re.S)
+            if not m: continue
+            v, lo_e, hi_e = m.group(1), m.group(2), m.group(3)
+            kv = f"{v}__{n_}"
+            last = prev_code(toks, lo_)
+            ed.replace(toks[lk].start, toks[last].end, f"let mut {kv} = {hi_e}; while {kv} > {lo_e}")
+            ed.insert(toks[lo_].end, f" {kv} -= 1; let {v} = {kv};")
+            log.append(("R4", where, hdr.strip()))
     for x in secs:
         if x.kind in ("loop", "loop_begin", "loop_end", "after", "before"):
             kidx = int(x.arg)
